@@ -340,7 +340,7 @@ def check_recv_protocol(cx, rule, prefix):
     nr = none_checks(f, "reader", "MethodCall") + none_checks(f, "writer", "MethodCall")
     ru = body.calls("=read_until")
     old = err_variant_blocks(body, "IteratorOldReply")
-    good = len(nr) >= 2 and bool(old) and bool(ru) and all(ru[0].bb not in cfg.reach(absent_edge(t, c)[2]) for t, c in nr)
+    good = len(nr) >= 2 and bool(old) and bool(ru) and all(ru[0].bb not in cfg.after(absent_edge(t, c)) for t, c in nr)
     cx.check(good, rule, prefix + ":recv:old-reply-guard", site, "recv() on a call object that holds no stream does not fail before reading", note_ok="no reader/writer -> IteratorOldReply before any read")
     return f
 
@@ -361,7 +361,7 @@ def check_next(cx, rule, prefix):
     if sw and len(recvs) == 1:
         te, fe = bool_edges(*sw)
         nones = [s.bb for s in body.stmts() if s.kind == "assign" and s.lhs.l == 0 and s.rv == "agg" and isinstance(s.agg, dict) and s.agg.get("variant") == "None"]
-        good = recvs[0].bb in cfg.reach(te[2]) and recvs[0].bb not in cfg.reach(fe[2]) and bool(nones) and all(n in cfg.reach(fe[2]) and n not in cfg.reach(te[2]) for n in nones)
+        good = recvs[0].bb in cfg.after(te) and recvs[0].bb not in cfg.after(fe) and bool(nones) and all(n in cfg.after(fe) and n not in cfg.after(te) for n in nones)
     cx.check(good, rule, prefix + ":next:stops-when-not-continuing", body.sp,
              "Iterator::next does not return None exactly when self.continues is false (and recv() otherwise)", note_ok="continues ? Some(recv()) : None")
     # more(): continues = true, then send(false, true, false)
